@@ -127,6 +127,9 @@ pub fn check(prop: &str, cx: &Cx, rep: &mut Report) {
         if prop == "C13" || prop == "C04" {
             stop_starvation(prop, cx, rep);
         }
+        if prop == "C13" || prop == "C02" {
+            submission_starvation(prop, cx, rep);
+        }
         return;
     }
     match prop {
@@ -167,6 +170,30 @@ pub fn check(prop: &str, cx: &Cx, rep: &mut Report) {
 /// After an accepted stop request has returned, a stream-attached actor handles at most 200 further stream items
 /// (the unchanged loop takes the mailbox with probability 1/2 per iteration).  Prefix-safe: also evaluated on
 /// executions that hit the step cap, where it is the only rule evaluated.
+/// Prefix-safe like `stop_starvation`: the loop of a stream-attached actor chooses fairly between its mailbox and its
+/// stream, so a call or ping that is in the mailbox is not overtaken by hundreds of stream items (with the library's
+/// random choice the chance of 400 in a row is 2^-400; the executor's own fairness bound is 48 decisions).
+pub fn submission_starvation(prop: &str, cx: &Cx, rep: &mut Report) {
+    use crate::log::{K, Mk, OpK};
+    let ix = cx.ix;
+    let (p, rule, key): (&'static str, &'static str, &'static str) = if prop == "C13" { ("C13", "R5", "C13.R5.bounded_progress_of_messages") } else { ("C02", "R4", "C02.R4.call_not_starved_by_stream") };
+    for d in cx.prog.actors.iter().filter(|d| d.entry.stream()) {
+        let Some(task) = ix.task_of(d.tag) else { continue };
+        let items: Vec<u64> = ix.ev.iter().filter(|e| matches!(&e.k, K::HIn { mk: Mk::Item, actor, .. } if *actor == task)).map(|e| e.stamp).collect();
+        // (calls only: their handler entry is an event of the actor itself; when a *client* gets to see a reply
+        // depends on when the actor's task yields, which a long run of ready items postpones legitimately)
+        for o in ix.ops.iter().filter(|o| o.tag == d.tag && o.op == OpK::Call && o.msg != 0 && o.executed() && o.path == crate::log::Path::Forcing) {
+            rep.premise(key);
+            let done = ix.inv_of.get(&o.msg).and_then(|v| v.first()).map(|j| ix.invs[*j].i).unwrap_or(if o.is_err() || matches!(o.res, Some(crate::log::Res::Cancelled)) { o.e.unwrap_or(u64::MAX) } else { u64::MAX });
+            let overtaken = items.iter().filter(|s| **s > o.b && **s < done).count();
+            if overtaken > 400 {
+                rep.fail(p, rule, format!("submission_starved;op={:?}", o.op), format!("stream actor tag {}: {overtaken} stream items were handled after {:?} c{}#{} began at #{} and before it was handled / answered", d.tag, o.op, o.c, o.i, o.b), vec![o.b]);
+                break;
+            }
+        }
+    }
+}
+
 pub fn stop_starvation(prop: &str, cx: &Cx, rep: &mut Report) {
     use crate::log::{K, Mk, OpK, Res};
     let ix = cx.ix;
